@@ -682,6 +682,117 @@ func (t *Trans) loopWrites(fr *Frame, lr *loopRec) map[string]string {
 	return out
 }
 
+// loopLocalFrames: for every heap component the loop writes only through stores whose base object is fixed
+// before the loop (map updates, field stores) or in freshly allocated objects, an invariant saying that all
+// other locations that existed at loop entry keep the value they had there. Proved like any invariant
+// (inv.init / inv.keep), so a wrong classification costs an alarm, never soundness.
+func (t *Trans) loopLocalFrames(fr *Frame, lr *loopRec, pre State) []autoInv {
+	if !fr.top {
+		return nil
+	}
+	env := t.env
+	bases := map[string][]ssa.Value{}
+	unknown := map[string]bool{}
+	outside := func(v ssa.Value) bool {
+		in, ok := v.(ssa.Instruction)
+		return !ok || !lr.body[in.Block()]
+	}
+	for b := range lr.body {
+		for _, in := range b.Instrs {
+			switch x := in.(type) {
+			case *ssa.MapUpdate:
+				h, v, l := env.mapComps(x.Map.Type())
+				for _, c := range []string{h, v, l} {
+					if outside(x.Map) {
+						bases[c] = append(bases[c], x.Map)
+					} else {
+						unknown[c] = true
+					}
+				}
+			case *ssa.Store:
+				w := map[string]string{}
+				t.P.directWrites(env, fr.fn, in, w, nil)
+				fa, isFA := x.Addr.(*ssa.FieldAddr)
+				for c := range w {
+					if isFA && outside(fa.X) && !isStructType(x.Addr.Type().Underlying().(*types.Pointer).Elem()) && c == env.fieldComp(fa.X.Type().Underlying().(*types.Pointer).Elem(), fa.Field) {
+						bases[c] = append(bases[c], fa.X)
+					} else {
+						unknown[c] = true
+					}
+				}
+			case *ssa.Alloc, *ssa.MakeMap, *ssa.MakeSlice, *ssa.MakeClosure, *ssa.MakeInterface:
+				// fresh locations only
+			case *ssa.Call, *ssa.Defer, *ssa.Go:
+				var cc *ssa.CallCommon
+				switch y := in.(type) {
+				case *ssa.Call:
+					cc = y.Common()
+				case *ssa.Defer:
+					cc = y.Common()
+				}
+				var ct *Contract
+				if cc != nil {
+					if cc.IsInvoke() {
+						ct = t.P.IfaceContract(cc.Value.Type(), cc.Method)
+					} else if f, ok := cc.Value.(*ssa.Function); ok {
+						ct = t.P.ContractFor(f)
+					}
+				}
+				if ct != nil && !ct.Inline {
+					// a callee under contract changes existing locations only as its modifies clause says
+					for c := range t.P.declaredWrites(env, ct) {
+						unknown[c] = true
+					}
+					for _, x := range ct.Extra["writes"] {
+						for _, a := range sxAtoms(x) {
+							unknown[a] = true
+						}
+					}
+					continue
+				}
+				for c := range t.P.instrWrites(env, fr.fn, in) {
+					unknown[c] = true
+				}
+			}
+		}
+	}
+	if unknown["*"] {
+		return nil
+	}
+	var out []autoInv
+	var cs []string
+	for c := range t.loopWrites(fr, lr) {
+		cs = append(cs, c)
+	}
+	sort.Strings(cs)
+	for _, c := range cs {
+		c := c
+		if unknown[c] || t.P.ghostComps[c] != "" || !strings.HasPrefix(env.comps[c], "(Array Ref ") {
+			continue
+		}
+		bs := bases[c]
+		before := pre.get(c)
+		alloc0 := pre.get("alloc")
+		out = append(out, autoInv{label: "loopframe." + c, build: func(sc *SpecCtx) string {
+			now := sc.st.get(c)
+			if now == before {
+				return "true"
+			}
+			conds := []string{fmt.Sprintf("(<= (rid r!l) %s)", alloc0)}
+			seen := map[string]bool{}
+			for _, b := range bs {
+				v := fr.val(b)
+				if !seen[v] {
+					seen[v] = true
+					conds = append(conds, fmt.Sprintf("(not (= r!l %s))", v))
+				}
+			}
+			return fmt.Sprintf("(forall ((r!l Ref)) (! (=> %s (= (select %s r!l) (select %s r!l))) :pattern ((select %s r!l))))", andTerms(conds...), now, before, now)
+		}})
+	}
+	return out
+}
+
 func (t *Trans) enterLoop(fr *Frame, lr *loopRec, reach string, pre State, phiPre map[*ssa.Phi]string) State {
 	tags := fr.tags
 	fname := fr.path
@@ -692,6 +803,7 @@ func (t *Trans) enterLoop(fr *Frame, lr *loopRec, reach string, pre State, phiPr
 	}
 	// automatic frame invariants for the enclosing function's frame condition
 	lr.autoInv = t.autoFrameInvariants(fr, lr)
+	lr.autoInv = append(lr.autoInv, t.loopLocalFrames(fr, lr, pre)...)
 	// range-over-slice loops: the hidden index stays within [-1, LENMAX) and the loop terminates
 	var rangePhi *ssa.Phi
 	for _, in := range lr.header.Instrs {
